@@ -221,11 +221,10 @@ def r07_3(ctx: Ctx, rep: Report) -> None:
             rep.violation(q, "parse before read", "a parsed view is read before parse_config() ran (or is never parsed): the driver returns nothing", where(d))
 
 
-def r07_4(ctx: Ctx, rep: Report) -> None:
-    rep.rule("R07.4")
-    f = ctx.func("ConfigParser._acls_on_interfaces")
+def _direction_pairs(ctx: Ctx, f: Func, pairs: Dict[str, Set[str]]) -> None:
+    """direction literal -> keys of the per-interface record written for it."""
     cfg = ctx.cfg(f)
-    pairs: Dict[str, Set[str]] = {}
+    lenv = ctx.folder.local_env(f)
     for n in cfg.live:
         if n.kind != "stmt" or n.ast is None:
             continue
@@ -239,6 +238,13 @@ def r07_4(ctx: Ctx, rep: Report) -> None:
                     keys |= {k.value for k in a.keys if isinstance(k, ast.Constant)}
             if isinstance(x, ast.Assign) and isinstance(x.targets[0], ast.Subscript) and isinstance(x.targets[0].slice, ast.Constant):
                 keys.add(x.targets[0].slice.value)
+            # data[KEYS[direction]] = intf  with KEYS a constant mapping direction -> key
+            if isinstance(x, ast.Assign) and isinstance(x.targets[0], ast.Subscript) and isinstance(x.targets[0].slice, ast.Subscript) and "direction" in src(x.targets[0].slice.slice):
+                table = ctx.folder.fold(x.targets[0].slice.value, f.module, lenv)
+                if isinstance(table, dict):
+                    for d_, k_ in table.items():
+                        if k_ in ("input", "output"):
+                            pairs.setdefault(d_, set()).add(k_)
         keys &= {"input", "output"}
         if not keys:
             continue
@@ -247,6 +253,24 @@ def r07_4(ctx: Ctx, rep: Report) -> None:
         for c, lab in cfg.control_deps(n):
             if c.kind == "cond" and isinstance(c.ast, ast.Compare) and isinstance(c.ast.ops[0], ast.Eq) and isinstance(c.ast.comparators[0], ast.Constant) and lab == "T" and "direction" in src(c.ast.left):
                 pairs.setdefault(c.ast.comparators[0].value, set()).update(keys)
+
+
+def r07_4(ctx: Ctx, rep: Report) -> None:
+    rep.rule("R07.4")
+    f = ctx.func("ConfigParser._acls_on_interfaces")
+    # the per-interface part may live in a private helper of the class
+    from .common import callee_of_self_call
+
+    scope = [f]
+    for x in own_nodes(f.node):
+        if isinstance(x, ast.Call):
+            m = callee_of_self_call(ctx, f, x)
+            if m is not None and m not in scope and m.name.startswith("_"):
+                scope.append(m)
+    pairs: Dict[str, Set[str]] = {}
+    for g in scope:
+        _direction_pairs(ctx, g, pairs)
+    cfg = ctx.cfg(f)
     rep.instance()
     if pairs == {"in": {"input"}, "out": {"output"}}:
         rep.ok("ConfigParser._acls_on_interfaces", "'in' updates 'input', 'out' updates 'output' (a bijection)", where=where(f))
@@ -255,13 +279,13 @@ def r07_4(ctx: Ctx, rep: Report) -> None:
     # the regex: (name) (direction), name is the first group
     rep.instance()
     pats = []
-    for n in own_nodes(f.node):
+    for n in [y for g in scope for y in own_nodes(g.node)]:
         if isinstance(n, ast.Call) and src(n.func) in ("re.findall", "re.search", "re.match") and n.args:
             v = ctx.folder.fold(n.args[0], f.module)
             if isinstance(v, str):
                 pats.append(v)
     good = any(_re.findall(p, "ip access-group NAME in") == [("NAME", "in")] for p in pats)
-    for_t = [n for n in own_nodes(f.node) if isinstance(n, ast.For) and isinstance(n.target, ast.Tuple) and len(n.target.elts) == 2]
+    for_t = [n for g in scope for n in own_nodes(g.node) if isinstance(n, ast.For) and isinstance(n.target, ast.Tuple) and len(n.target.elts) == 2]
     order_ok = any([src(e) for e in lp.target.elts] == ["acl_name", "direction"] for lp in for_t)
     if good and order_ok:
         rep.ok("ConfigParser._acls_on_interfaces: pattern", f"{pats[0]!r} yields (name, direction)", where=where(f))
